@@ -4,9 +4,11 @@ import os
 from collections import Counter
 from vt import core, ref as R, build as B, sat
 
-REF_LIMIT = {'quick': 400, 'thorough': 4000}
+REF_LIMIT = {'quick': 250, 'thorough': 4000}
 # designs per stratum in a quick run (stratified over shape classes, see gen.thin); thorough runs take whole strata
-QUICK_CAPS = {'S1': 240, 'S1x': 60, 'S2': 160, 'S3': 90, 'S4': 90, 'S5': 80, 'S6': 46, 'S9': 200}
+# cheap checks take (nearly) whole strata even in a quick run
+QUICK_CAPS_BIG = {'S1': 900, 'S1x': 250, 'S2': 550, 'S3': 400, 'S4': 170, 'S5': 190, 'S6': 50, 'S9': 450}
+QUICK_CAPS = {'S1': 220, 'S1x': 60, 'S2': 160, 'S3': 200, 'S4': 90, 'S5': 80, 'S6': 46, 'S9': 200}
 
 
 class Ctx:
@@ -75,17 +77,27 @@ def brief(spec):
                         for f in spec['factors']]}
 
 
-def setup(spec, tier, ref_limit=None, need_ref=True):
-    """-> (Ctx, None) or (None, skip result).  Ctx: spec, ref, objs, block, design (user-visible factor names)."""
+def setup(spec, tier, ref_limit=None, need_ref=True, fallback_checker=False):
+    """-> (Ctx, None) or (None, skip result).  Ctx: spec, ref, objs, block, design (user-visible factor names).
+    fallback_checker: when the valid set is too large to enumerate, c.ref is None and c.checker is a single-sequence
+    membership oracle (soundness-only checks can still run)."""
     c = Ctx()
     c.spec = spec
     c.sig = design_sig(spec)
     c.ref = None
+    c.checker = None
     if need_ref:
         try:
             c.ref = R.solve(spec, limit=ref_limit or REF_LIMIT[tier])
         except R.RefOverflow:
-            return None, core.skip('ref_overflow')
+            if not fallback_checker:
+                return None, core.skip('ref_overflow')
+            try:
+                c.checker = R.Checker(spec)
+            except R.RefUnsupported:
+                return None, core.skip('ref_unsupported')
+            if c.checker.unsupported:
+                return None, core.skip('ref_unsupported')
         except R.RefUnsupported as e:
             return None, core.skip('ref_unsupported')
     try:
@@ -97,8 +109,25 @@ def setup(spec, tier, ref_limit=None, need_ref=True):
         return None, core.skip('reference_says_refused_but_constructed')
     if c.ref is not None and not c.ref.readings:
         return None, core.skip('no_reading')
-    c.design = c.ref.design if c.ref is not None else B.block_design(spec['block'])
+    if c.checker is not None and (c.checker.refused or not c.checker.sems):
+        return None, core.skip('reference_says_refused_but_constructed')
+    c.design = c.ref.design if c.ref is not None else (c.checker.design if c.checker is not None else B.block_design(spec['block']))
     return c, None
+
+
+def all_valid(c, seqs):
+    """soundness: every sequence valid under one reading (reference set) / under some reading (membership oracle)
+    -> (ok, first invalid example)"""
+    if c.ref is not None:
+        if match_subset(c.ref, seqs) is not None:
+            return True, None
+        v = c.ref.readings[0]
+        bad = [s for s in seqs if s not in v]
+        return False, (bad[0] if bad else None)
+    for s in seqs:
+        if not c.checker.valid(s):
+            return False, s
+    return True, None
 
 
 def rebuild(c):
@@ -231,3 +260,44 @@ def sample_of(item, res):
     d = brief(item['spec'])
     d['explored'] = {k: res.get(k) for k in ('states', 'transitions', 'validated', 'outcome')}
     return d
+
+
+def exhaust_vs_ref(c, gens=('sat', 'rnd'), seed=0, pk_cap=3000):
+    """Exhaust the given strategies on fresh blocks and compare with the reference multiset.
+    -> (viols, states, validated, skipped list)"""
+    import random
+    from vt import rnd as _rnd
+    viols, skipped = [], []
+    states = validated = 0
+    N = ref_size(c.ref)
+    for g in gens:
+        block = rebuild(c)
+        if g == 'rnd':
+            try:
+                pk, _ = _rnd.possible_keys(block)
+            except Exception as e:
+                skipped.append('rnd raises %s (C08)' % type(e).__name__)
+                continue
+            if pk > pk_cap:
+                skipped.append('rnd candidate space too large')
+                continue
+            random.seed(seed)
+        exps, e, out = synth(block, N + 20, g)
+        sig = dict(c.sig, gen=g)
+        if e is not None:
+            viols.append(core.viol('exception', dict(sig, exc=type(e).__name__), design=brief(c.spec), message=str(e)[:300]))
+            continue
+        try:
+            tup = tuples(exps, c.design)
+        except (KeyError, IndexError) as e2:
+            viols.append(core.viol('malformed_result', dict(sig, exc=type(e2).__name__), design=brief(c.spec), message=str(e2)[:200]))
+            continue
+        states += len(tup)
+        cnt = Counter(tup)
+        i = match_exact(c.ref, cnt)
+        if i is None:
+            kinds, d = diff_detail(c.ref, cnt)
+            viols.append(core.viol('set_differs', dict(sig, diff=kinds), design=brief(c.spec), **d))
+        else:
+            validated += len(tup)
+    return viols, states, validated, skipped
